@@ -468,7 +468,130 @@ def r104(facts, res):
     res.floor(R, 'token-set insertions in the Yacc parser', n, 5)
 
 
+def r105(facts, res):
+    """"each rule/production/token span points at the text that defines it", for names: (a) parse_name(i) returns the cursor
+    i + E together with exactly src[i .. i + E]; (b) every Ok return of parse_token carries a span whose bounds are the bounds of
+    the slice its text was copied from; (c) every Span::new(a, b) in the yacc parser whose end b is the cursor returned by
+    parse_name / parse_token started at x starts at x.  Linear forms (A10) decide the equalities."""
+    R = 'R10.5'
+    import linarith as LA
+    from lrstep import is_call, has_call
+    def fn(name):
+        bs = [b for b in facts.lib_bodies(['cfgrammar']) if b.name == name and b.path.startswith('cfgrammar::yacc::parser::YaccParser')]
+        return bs[0] if len(bs) == 1 else None
+    def ok_tuple(ret):
+        for x in subterms(ret):
+            if isinstance(x, tuple) and x and x[0] == 'variant' and x[3] == 'Ok':
+                t = x[4][0]
+                return t[1] if isinstance(t, tuple) and t and t[0] == 'tuple' else None
+        return None
+    def text_bounds(t):
+        # to_string(index(src, Range(a, b)))
+        t = strip_ref(t)
+        if is_call(t, 'to_string') or is_call(t, 'to_owned') or is_call(t, 'from'):
+            sl = strip_ref(t[2][0])
+            if is_call(sl, 'index') and isinstance(sl[2][1], tuple) and sl[2][1][0] == 'variant' and sl[2][1][3] == 'Range':
+                return sl[2][1][4][0], sl[2][1][4][1]
+        return None
+    def same(x, y):
+        return (LA.lin(x) - LA.lin(y)).is_const() and (LA.lin(x) - LA.lin(y)).k == 0
+    # (a)
+    pn = fn('parse_name')
+    if pn is None:
+        res.lost(R, 'YaccParser::parse_name not found')
+    else:
+        n = 0
+        bad = []
+        for p in Walker(pn, facts, max_paths=64).run(0):
+            if p.end[0] != 'return':
+                continue
+            tup = ok_tuple(p.end[1])
+            if tup is None:
+                continue
+            n += 1
+            tb = text_bounds(tup[1]) if len(tup) == 2 else None
+            if tb is None or not same(tb[0], ('param', 2)) or not same(tb[1], tup[0]):
+                bad.append('parse_name returns the cursor %s with the text %s: not exactly the source between its argument and that cursor' % (fmt_term(tup[0])[:40], fmt_term(tup[1])[:80]))
+        if bad or n == 0:
+            res.bad(R, 'parse_name', loc_of(pn), '; '.join(bad) or 'no successful return found')
+        else:
+            res.ok(R, 'parse_name', loc_of(pn), 'returns (i + E, src[i .. i + E])')
+    # (b)
+    pt = fn('parse_token')
+    if pt is None:
+        res.lost(R, 'YaccParser::parse_token not found')
+    else:
+        n = 0
+        bad = []
+        for p in Walker(pt, facts, max_paths=256).run(0):
+            if p.end[0] != 'return':
+                continue
+            tup = ok_tuple(p.end[1])
+            if tup is None or len(tup) < 3:
+                continue
+            n += 1
+            tb = text_bounds(tup[1])
+            sp = strip_ref(tup[2])
+            if tb is None or not (is_call(sp, 'new') and len(sp[2]) == 2):
+                bad.append('cannot read text / span of a parse_token return')
+                continue
+            if not same(tb[0], sp[2][0]) or not same(tb[1], sp[2][1]):
+                bad.append('a token\'s text is src[%s..%s] but its span is %s..%s' % (fmt_term(tb[0])[:30], fmt_term(tb[1])[:40], fmt_term(sp[2][0])[:30], fmt_term(sp[2][1])[:40]))
+        if bad or n == 0:
+            res.bad(R, 'parse_token', loc_of(pt), '; '.join(sorted(set(bad))[:2]) or 'no successful return found')
+        else:
+            res.ok(R, 'parse_token', loc_of(pt), 'span bounds = bounds of the slice the text was copied from (%d Ok returns)' % n)
+    # (c)
+    nsp = 0
+    badc = []
+    for b in facts.lib_bodies(['cfgrammar']):
+        if b.from_expansion or not b.path.startswith('cfgrammar::yacc::parser::YaccParser') or b.name in ('parse_name', 'parse_token'):
+            continue
+        if not (b.calls_named('parse_name') or b.calls_named('parse_token')):
+            continue
+        from lrstep import widening_walker, loop_assigned
+        loops = b.loops()
+        for sb, stt in [(bb, t) for bb, t in b.calls() if (cpath(t) or '').endswith('span::Span::new')]:
+            inl = [h for h in loops if sb in loops[h]]
+            start = min(inl, key=lambda h: len(loops[h])) if inl else 0
+            w = widening_walker(b, facts)
+            w.widen_headers = set(loops) - ({start} if inl else set())
+            w.widen_assigned = {h: loop_assigned(b, h) for h in w.widen_headers}
+            w.max_paths = 3000
+            stopb = stt['ret']
+            ps = [p for p in w.run(start, stop=lambda x: x == stopb or (bool(inl) and x not in loops[start])) if any(e[0] == 'call' and e[1] == sb for e in p.events)]
+            if w.overflow:
+                continue
+            for p in ps:
+                e = [e for e in p.events if e[0] == 'call' and e[1] == sb][0]
+                a_, b_ = e[3]
+                bb_ = strip_ref(b_)
+                # b is .0 of the Ok payload of parse_name / parse_token (x)
+                x = bb_
+                while isinstance(x, tuple) and x and x[0] in ('field', 'downcast'):
+                    x = x[1]
+                while isinstance(x, tuple) and x and x[0] == 'call' and strip_generics(x[1]).split('::')[-1] in ('branch', 'unwrap', 'expect') and x[2]:
+                    x = strip_ref(x[2][0])
+                    while isinstance(x, tuple) and x and x[0] in ('field', 'downcast'):
+                        x = x[1]
+                if not (isinstance(x, tuple) and x and x[0] == 'call' and strip_generics(x[1]).split('::')[-1] in ('parse_name', 'parse_token')):
+                    continue
+                if not (isinstance(bb_, tuple) and bb_[0] == 'field' and bb_[2] == 0):
+                    continue
+                nsp += 1
+                arg = x[2][1]
+                if not same(a_, arg):
+                    badc.append('%s: a span ends at the cursor returned by %s(%s) but starts at %s' % (strip_generics(b.path).split('::')[-1], strip_generics(x[1]).split('::')[-1], fmt_term(arg)[:30], fmt_term(a_)[:40]))
+                break
+    if badc:
+        res.bad(R, 'name-spans', '', '; '.join(sorted(set(badc))[:3]))
+    else:
+        res.ok(R, 'name-spans', '', '%d span constructions end at the cursor a name/token parser returned and start where it was started' % nsp)
+    res.floor(R, 'spans built from a name/token parser\'s cursor', nsp, 4)
+
+
 def run(facts, res):
+    r105(facts, res)
     r101(facts, res)
     r102(facts, res)
     r104(facts, res)
